@@ -148,6 +148,7 @@ def run(spec, R):
         wl = workload(rng, spec['cases'])
         seen_all = {'en': [(refcat.ref_parse(a), refcat.ref_parse(b)) for a, b in gens.seen_pairs('en')],
                     'ja': [(refcat.ref_parse(a), refcat.ref_parse(b)) for a, b in gens.seen_pairs('ja')]}
+        first_results = []
         for i, (lang, x, y) in enumerate(wl):
             g = G[lang]
             wit = {'lang': lang, 'x': refcat.ref_print(x), 'y': refcat.ref_print(y)}
@@ -207,9 +208,21 @@ def run(spec, R):
                 if not (s1 == se == sn):
                     R.violation('rules:nb-dependent', f'results depend on nb marks: {s1} / erased {se} / sprinkled '
                                 f'({refcat.ref_print(sx)}, {refcat.ref_print(sy)}) {sn}', wit)
+            first_results.append((lang, x, y, s1))
             if i % 1000 == 0:
                 R.sample(dict(wit, results=s1))
             if i % 128 == 0 and R.out_of_time():
+                break
+        # "the same list on every call": whatever was applied in between - evaluate again in reverse order
+        for lang, x, y, s1 in reversed(first_results):
+            try:
+                again = ser(G[lang].apply_binary_rules(refcat.from_ref(x), refcat.from_ref(y)))
+            except Exception as e:
+                again = ['raised', repr(e)]
+            R.count('pure:history-independent')
+            if again != s1:
+                R.violation('rules:unstable', f'{lang}: {refcat.ref_print(x)} + {refcat.ref_print(y)} gave {s1} first and {again} later in the '
+                            f'same process (after other pairs had been combined)', {'lang': lang, 'x': refcat.ref_print(x), 'y': refcat.ref_print(y)})
                 break
     else:
         unary_shard(spec, R, rng, G)
